@@ -931,3 +931,245 @@ Proof.
   unfold ewma. replace (Z.min (success c) 0) with 0 by lia. replace (Z.max (success c) 0) with (success c) by lia.
   destruct (_ <? _) eqn:E1; [lia|]. destruct (_ >? _) eqn:E2; [|exact F]. nia.
 Qed.
+
+(* ------------------------------------------------------------------ Pick never panics *)
+Section Total.
+  Variable fsqrt : Z -> Z.
+
+  Definition draw_ok (n : nat) (p : Z * Z) : Prop :=
+    0 <= fst p < Z.of_nat n /\ 0 <= snd p < Z.of_nat n - 1.     (* Intn(n), Intn(n-1) *)
+
+  Lemma choose_total t cs i1 o2 :
+    (i1 < List.length cs)%nat -> (forall i2, o2 = Some i2 -> (i2 < List.length cs)%nat) ->
+    exists i cs', choose fsqrt t cs i1 o2 = Ok (i, cs').
+  Proof.
+    intros H1 H2. unfold choose. destruct (nth_error cs i1) as [c1|] eqn:E1; [|apply nth_error_None in E1; lia].
+    destruct o2 as [i2|]; [|eauto]. specialize (H2 i2 eq_refl).
+    destruct (nth_error cs i2) as [c2|] eqn:E2; [|apply nth_error_None in E2; lia].
+    destruct (load fsqrt c1 >? load fsqrt c2); match goal with |- context [if ?b then _ else _] => destruct b end; eauto.
+  Qed.
+
+  Lemma draw_loop_total cs fuel : forall draws cur used,
+    (fuel <= List.length draws)%nat -> Forall (draw_ok (List.length cs)) (firstn fuel draws) ->
+    (fuel = 0%nat -> cur <> None) ->
+    exists r, draw_loop cs fuel draws cur used = Ok r.
+  Proof.
+    induction fuel as [|f IH]; intros draws cur used Hlen Hok Hcur; cbn [draw_loop].
+    - destruct cur as [[a b]|]; [eauto|]. exfalso. apply Hcur; reflexivity.
+    - destruct draws as [|[a b0] rest]; [cbn in Hlen; lia|]. cbn [firstn] in Hok. inversion Hok as [|x l Hd Hrest]; subst.
+      destruct Hd as (Ha & Hb). cbn [fst snd] in Ha, Hb. fold (adj a b0).
+      assert (Hadj : 0 <= adj a b0 < Z.of_nat (List.length cs)) by (unfold adj; destruct (b0 >=? a) eqn:G; lia).
+      replace ((a <? 0) || (adj a b0 <? 0)) with false by (symmetry; apply orb_false_iff; split; lia).
+      destruct (nth_error cs (Z.to_nat a)) as [n1|] eqn:E1; [|apply nth_error_None in E1; lia].
+      destruct (nth_error cs (Z.to_nat (adj a b0))) as [n2|] eqn:E2; [|apply nth_error_None in E2; lia].
+      destruct (healthy n1 && healthy n2); [eauto|]. apply IH; [cbn in Hlen; lia|exact Hrest|discriminate].
+  Qed.
+
+  (* with at least one connection and draws as Intn produces them, Pick returns a connection *)
+  Lemma pick_total s d :
+    conns s <> [] ->
+    ((3 <= List.length (conns s))%nat ->
+     (pickTimes <= List.length d)%nat /\ Forall (draw_ok (List.length (conns s))) (firstn pickTimes d)) ->
+    exists i id u s', pick fsqrt s d = Ok (i, id, u, s').
+  Proof.
+    intros Hne Hd. unfold pick.
+    set (chosen := match conns s with [] => _ | _ => _ end).
+    assert (Hc : exists i cs' u, chosen = Ok ((i, cs'), u) /\ List.length cs' = List.length (conns s) /\ (i < List.length (conns s))%nat).
+    { assert (G : forall i1 o2, (i1 < List.length (conns s))%nat ->
+                (forall i2, o2 = Some i2 -> (i2 < List.length (conns s))%nat) ->
+                exists i cs', choose fsqrt (now s) (conns s) i1 o2 = Ok (i, cs') /\
+                              List.length cs' = List.length (conns s) /\ (i < List.length (conns s))%nat).
+      { intros i1 o2 H1 H2. destruct (choose_total (now s) (conns s) i1 o2 H1 H2) as (i & cs' & E).
+        exists i, cs'. split; [exact E|]. apply choose_spec in E as (c & Hc & -> & _).
+        rewrite set_nth_length. split; [reflexivity|]. eapply nth_error_lt; eauto. }
+      subst chosen. destruct (conns s) as [|c0 [|c1 [|c2 r]]] eqn:Ecs; [congruence| | |].
+      - destruct (G 0%nat None) as (i & cs' & E & L1 & L2); [cbn; lia|discriminate|]. rewrite E. eauto 6.
+      - destruct (G 0%nat (Some 1%nat)) as (i & cs' & E & L1 & L2); [cbn; lia|intros ? H; inversion H; cbn; lia|].
+        rewrite E. eauto 6.
+      - destruct Hd as (Hl & Hok); [cbn; lia|].
+        destruct (draw_loop_total (c0 :: c1 :: c2 :: r) pickTimes d None 0 Hl Hok) as ([[a b] u] & E); [discriminate|].
+        rewrite E. destruct (draw_loop_in _ _ _ _ _ _ _ _ E) as (La & Lb); [discriminate|].
+        destruct (G a (Some b) La) as (i & cs' & E2 & L1 & L2); [intros ? H; inversion H; subst; exact Lb|].
+        rewrite E2. eauto 6. }
+    destruct Hc as (i & cs' & u & -> & L1 & L2).
+    destruct (nth_error cs' i) as [c|] eqn:E; [eauto 6|]. apply nth_error_None in E. lia.
+  Qed.
+End Total.
+
+(* ------------------------------------------------------------------ interleaved done funcs *)
+(* The done func is not atomic in the Go code: it is a sequence of atomic operations on its connection
+   (p2c.go:138-160), and several done funcs and Picks of the same connection may interleave (lost updates
+   of lag / success are possible).  One connection, any number of concurrent done funcs, every schedule;
+   the raw value v of the float expression is an arbitrary input of each store. *)
+Definition clampv (old sample v : Z) : Z :=
+  let lo := Z.min old sample in let hi := Z.max old sample in
+  if v <? lo then lo else if v >? hi then hi else v.
+
+Lemma ewma_clampv W fexpr old sample w : ewma W fexpr old sample w = clampv old sample (fexpr w old sample).
+Proof. reflexivity. Qed.
+
+Record thread := mkth { th_pc : nat; th_olag : Z; th_osucc : Z }.
+Record cst := mkc { k_inflight : Z; k_lag : Z; k_success : Z; k_threads : list thread }.
+
+Inductive lbl :=
+| LPick                                  (* a Pick chose this connection: atomic.AddInt64(&inflight, 1) *)
+| LBegin                                 (* a done func starts: atomic.AddInt64(&inflight, -1); Swap(&last) *)
+| LLoadLag (t : nat)                     (* olag := atomic.LoadUint64(&c.lag) *)
+| LStoreLag (t : nat) (sample v : Z)     (* atomic.StoreUint64(&c.lag, ewma(olag, sample, w)) *)
+| LLoadSucc (t : nat)                    (* oSuccess := atomic.LoadUint64(&c.success) *)
+| LStoreSucc (t : nat) (target v : Z).   (* atomic.StoreUint64(&c.success, ewma(oSuccess, target, w)) *)
+
+Definition with_thread (s : cst) (t pc : nat) (f : thread -> cst) : option cst :=
+  match nth_error (k_threads s) t with
+  | Some th => if Nat.eqb (th_pc th) pc then Some (f th) else None      (* not this thread's turn: blocked *)
+  | None => None
+  end.
+
+Definition cstep (s : cst) (l : lbl) : option cst :=
+  match l with
+  | LPick => Some (mkc (k_inflight s + 1) (k_lag s) (k_success s) (k_threads s))
+  | LBegin => Some (mkc (k_inflight s - 1) (k_lag s) (k_success s) (k_threads s ++ [mkth 0 0 0]))
+  | LLoadLag t => with_thread s t 0 (fun th =>
+      mkc (k_inflight s) (k_lag s) (k_success s) (set_nth t (mkth 1 (k_lag s) (th_osucc th)) (k_threads s)))
+  | LStoreLag t sample v => with_thread s t 1 (fun th =>
+      mkc (k_inflight s) (clampv (th_olag th) sample v) (k_success s) (set_nth t (mkth 2 (th_olag th) (th_osucc th)) (k_threads s)))
+  | LLoadSucc t => with_thread s t 2 (fun th =>
+      mkc (k_inflight s) (k_lag s) (k_success s) (set_nth t (mkth 3 (th_olag th) (k_success s)) (k_threads s)))
+  | LStoreSucc t target v => with_thread s t 3 (fun th =>
+      mkc (k_inflight s) (k_lag s) (clampv (th_osucc th) target v) (set_nth t (mkth 4 (th_olag th) (th_osucc th)) (k_threads s)))
+  end.
+
+Fixpoint crun (s : cst) (sched : list lbl) : option cst :=
+  match sched with
+  | [] => Some s
+  | l :: r => match cstep s l with Some s' => crun s' r | None => None end
+  end.
+
+Definition cinit : cst := mkc 0 0 initSuccess [].
+
+Fixpoint count_pick (sched : list lbl) : Z :=
+  match sched with [] => 0 | LPick :: r => 1 + count_pick r | _ :: r => count_pick r end.
+Fixpoint count_begin (sched : list lbl) : Z :=
+  match sched with [] => 0 | LBegin :: r => 1 + count_begin r | _ :: r => count_begin r end.
+Definition targets_ok (sched : list lbl) : Prop :=
+  forall t target v, In (LStoreSucc t target v) sched -> 0 <= target <= 1000.
+
+Lemma conc_inflight sched : forall s s',
+  crun s sched = Some s' -> k_inflight s' = k_inflight s + count_pick sched - count_begin sched.
+Proof.
+  induction sched as [|l r IH]; intros s s' H; cbn [crun] in H.
+  - inversion H; subst. cbn. lia.
+  - destruct (cstep s l) as [s1|] eqn:E; [|discriminate]. specialize (IH _ _ H). rewrite IH.
+    destruct l; cbn [cstep] in E; unfold with_thread in E;
+      try (destruct (nth_error (k_threads s) t) as [th|]; [|discriminate]; destruct (Nat.eqb (th_pc th) _); [|discriminate]);
+      inversion E; subst; cbn [k_inflight count_pick count_begin]; lia.
+Qed.
+
+Lemma clampv_between old sample v : Z.min old sample <= clampv old sample v <= Z.max old sample.
+Proof. unfold clampv. destruct (_ <? _) eqn:E1; [lia|]. destruct (_ >? _) eqn:E2; lia. Qed.
+
+Definition cinv (s : cst) : Prop :=
+  0 <= k_success s <= 1000 /\ Forall (fun th => 0 <= th_osucc th <= 1000) (k_threads s).
+
+Lemma Forall_set_nth {A} (P : A -> Prop) i x l : Forall P l -> P x -> Forall P (set_nth i x l).
+Proof.
+  intros Hl Hx. revert i. induction Hl as [|a l Ha Hl IH]; intro i.
+  - rewrite set_nth_nil. constructor.
+  - destruct i; [constructor; assumption|]. rewrite set_nth_S. constructor; auto.
+Qed.
+
+Lemma conc_score sched : forall s s',
+  targets_ok sched -> cinv s -> crun s sched = Some s' -> cinv s'.
+Proof.
+  induction sched as [|l r IH]; intros s s' Ht Hi H; cbn [crun] in H.
+  - inversion H; subst; exact Hi.
+  - destruct (cstep s l) as [s1|] eqn:E; [|discriminate].
+    apply (IH s1 s'); [intros t tg v Hin; apply (Ht t tg v); right; exact Hin| |exact H].
+    destruct Hi as (Hs & Hth).
+    destruct l; cbn [cstep] in E; unfold with_thread in E;
+      try (destruct (nth_error (k_threads s) t) as [th|] eqn:En; [|discriminate]; destruct (Nat.eqb (th_pc th) _); [|discriminate]);
+      inversion E; subst; unfold cinv; cbn [k_success k_threads].
+    + split; assumption.
+    + split; [assumption|]. apply Forall_app. split; [assumption|]. constructor; [cbn; lia|constructor].
+    + assert (Hin : 0 <= th_osucc th <= 1000) by (rewrite Forall_forall in Hth; apply Hth; eapply nth_error_In; eauto).
+      split; [assumption|]. apply Forall_set_nth; assumption.
+    + assert (Hin : 0 <= th_osucc th <= 1000) by (rewrite Forall_forall in Hth; apply Hth; eapply nth_error_In; eauto).
+      split; [assumption|]. apply Forall_set_nth; assumption.
+    + split; [assumption|]. apply Forall_set_nth; [assumption|cbn; lia].
+    + assert (Hin : 0 <= th_osucc th <= 1000) by (rewrite Forall_forall in Hth; apply Hth; eapply nth_error_In; eauto).
+      assert (Htg : 0 <= target <= 1000) by (apply (Ht t target v); left; reflexivity).
+      pose proof (clampv_between (th_osucc th) target v). split; [lia|]. apply Forall_set_nth; assumption.
+Qed.
+
+Lemma cinv_init : cinv cinit.
+Proof. unfold cinv, cinit, initSuccess. cbn. split; [lia|constructor]. Qed.
+
+(* ------------------------------------------------------------------ "each done func is called at most once" *)
+Definition calls_at (L : list entry) (k : nat) : Z :=
+  match nth_error L k with Some e => e_calls e | None => 0 end.
+
+Lemma calls_at_upd k0 L k : calls_at (upd_calls k0 L) k <= calls_at L k + (if Nat.eqb k0 k then 1 else 0).
+Proof.
+  unfold calls_at. revert k0 k. induction L as [|e r IH]; intros k0 k.
+  - destruct k0, k; cbn; try lia. destruct (Nat.eqb k0 k); lia.
+  - destruct k0, k; cbn [upd_calls nth_error Nat.eqb].
+    + cbn; lia.
+    + destruct (nth_error r k); lia.
+    + lia.
+    + apply IH.
+Qed.
+
+Lemma calls_at_app L e k : e_calls e = 0 -> calls_at (L ++ [e]) k = calls_at L k.
+Proof.
+  intro H. unfold calls_at. destruct (Nat.lt_ge_cases k (List.length L)) as [Hl|Hl].
+  - rewrite nth_error_app1 by exact Hl. reflexivity.
+  - rewrite nth_error_app2 by exact Hl. assert (E : nth_error L k = None) by (apply nth_error_None; exact Hl). rewrite E.
+    destruct (k - List.length L)%nat as [|m]; cbn; [exact H|]. destruct m; reflexivity.
+Qed.
+
+Section Once.
+  Variable W : Type.
+  Variable wzero : W.
+  Variable fexpr : W -> Z -> Z -> Z.
+  Variable fsqrt : Z -> Z.
+  Notation op := (op W).
+
+  (* how often the history calls the k-th done func *)
+  Fixpoint done_calls_of (k : nat) (ops : list op) : Z :=
+    match ops with
+    | [] => 0
+    | Done _ k' _ _ :: r => (if Nat.eqb k' k then 1 else 0) + done_calls_of k r
+    | _ :: r => done_calls_of k r
+    end.
+
+  Lemma done_calls_nonneg k ops : 0 <= done_calls_of k ops.
+  Proof. induction ops as [|o r IH]; cbn [done_calls_of]; [lia|]. destruct o; try assumption. destruct (Nat.eqb _ _); lia. Qed.
+
+  Lemma once_run ops : forall sg,
+    (forall k, calls_at (g_L (snd sg)) k + done_calls_of k ops <= 1) ->
+    forall k, calls_at (g_L (snd (grun W wzero fexpr fsqrt sg ops))) k <= 1.
+  Proof.
+    induction ops as [|o r IH]; intros [s g] H k.
+    - specialize (H k). cbn in *. lia.
+    - unfold grun. cbn [fold_left]. apply IH. clear IH k. intro k. specialize (H k). cbn [snd] in H.
+      destruct o as [d|k0 code w|dt]; cbn [gstep done_calls_of] in *.
+      + destruct (pick fsqrt s d) as [[[[i id] u] s']| |]; cbn [snd g_L]; try exact H.
+        rewrite calls_at_app by reflexivity. exact H.
+      + pose proof (done_calls_nonneg k r).
+        destruct (done W wzero fexpr s k0 code w) as [s'| |]; cbn [snd g_L]; try (destruct (Nat.eqb k0 k); lia).
+        destruct (nth_error (tokens s) k0); cbn [snd g_L]; try (destruct (Nat.eqb k0 k); lia).
+        pose proof (calls_at_upd k0 (g_L g) k). destruct (Nat.eqb k0 k); lia.
+      + exact H.
+  Qed.
+
+  (* a history that calls no done func twice yields an at-most-once ledger *)
+  Lemma once_ledger s0 ops :
+    (forall k, done_calls_of k ops <= 1) -> at_most_once (g_L (ledger W wzero fexpr fsqrt s0 ops)).
+  Proof.
+    intros H e Hin. apply In_nth_error in Hin as (k & Hk). unfold ledger in *.
+    pose proof (once_run ops (s0, ghost0 (List.length (conns s0)))) as R.
+    assert (R0 : forall k0, calls_at (g_L (snd (s0, ghost0 (List.length (conns s0))))) k0 + done_calls_of k0 ops <= 1).
+    { intro k0. unfold calls_at. cbn [snd ghost0 g_L]. destruct k0; cbn [nth_error]; apply H. }
+    specialize (R R0 k). unfold calls_at in R. rewrite Hk in R. exact R.
+  Qed.
+End Once.
